@@ -43,6 +43,8 @@ def build(case, kind):
         return mnet.to_factor_graph(case)
     if kind == "jt":
         return mnet.to_markov(case).to_junction_tree()
+    if kind == "jtx":
+        return mnet.to_explicit_jt(case)
     raise ValueError(kind)
 
 
@@ -67,7 +69,13 @@ def proportional(phi, mrep, names, card, labels, tol=1e-9):
 
 # ----------------------------------------------------------------------------- calibration
 def gen_calib(rng, tier):
-    kind = rng.choice(["mn", "mn", "fg", "jt", "bn"])
+    kind = rng.choice(["mn", "mn", "fg", "jt", "bn", "jtx"])
+    if kind == "jtx":
+        case = mnet.gen_jtx_case(rng)
+        case["kind"] = kind
+        case["heur"] = None
+        case["op"] = rng.choice(["sum", "sum", "max"])
+        return case
     cyc = rng.random() < .2          # long chordless cycles / grid: cascaded fill-in edges of the triangulation
     if kind == "bn":
         if cyc:
@@ -75,7 +83,7 @@ def gen_calib(rng, tier):
                                dup=False)
         else:
             for _ in range(30):
-                case = gen.rand_bn(rng, nmin=2, nmax=5, maxcard=3, name_kind=rng.choice(["str", "word", "int", "int0"]), mincard=2)
+                case = gen.rand_bn(rng, nmin=2, nmax=5, maxcard=3, name_kind=rng.choice(["str", "word", "int", "int0", "mixed"]), mincard=2)
                 from harness.props.c03 import connected
                 if connected(len(case["nodes"]), case["edges"]):
                     break
@@ -84,7 +92,7 @@ def gen_calib(rng, tier):
     elif cyc:
         case = mnet.gen_cliquey_case(rng) if rng.random() < .35 else mnet.gen_cycle_case(rng, grid=rng.random() < .12)
     else:
-        case = mnet.gen_mn_case(rng, dup=False if kind == "fg" else None)
+        case = mnet.gen_mn_case(rng, dup=False if kind == "fg" else None, name_kind=rng.choice(["str", "word", "int", "int0", "str", "word", "int", "mixed"]))
     if kind != "bn" and rng.random() < .25:
         # unnormalised potentials of a very different magnitude (beliefs are only defined up to scale)
         sc = Fraction(10) ** rng.choice([-9, -6, -4, 3])
